@@ -282,6 +282,7 @@ func judge(idx int64, sc scenario, o outcomeT) {
 	if o.reached && granted > 0 {
 		rt.Distinct(fmt.Sprintf("%+v", sc))
 	}
+	rt.DistinctIn("interleavings_observed(kind,point,event trace)", fmt.Sprintf("%v|%s|%d|%d|%v", sc.Kind, sc.Point, sc.Cap, sc.Waiters, o.trace))
 	if rt.WantSample() && idx%57 == 5 {
 		rt.Sample(rt.J{"scenario": sc, "trace": o.trace, "snapshots": len(o.snaps)})
 	}
